@@ -113,6 +113,9 @@ def gen_module(rng, helper_name):
             out += [pad + '    class Inner(object):', pad + '        """', pad + '        >>> print("inner class: never collected")', pad + '        """', pad + '        def im(self):', pad + '            """', pad + '            >>> 1', pad + '            """']
         if rng.random() < 0.3:
             out += [pad + '    if True:'] + func(indent + 8, True)
+        if rng.random() < 0.15:
+            # every compound statement holds statements that run on import: a definition in a `case` block exists too
+            out += [pad + '    match %d:' % k, pad + '        case %d:' % k] + func(indent + 12, True) + [pad + '        case _:', pad + '            pass']
         out.append(pad + '    attr%d = %d' % (k, k))
         return out
 
@@ -126,13 +129,21 @@ def gen_module(rng, helper_name):
                 out += klass(indent)
             else:
                 pad = ' ' * indent
-                kind = rng.choice(['if', 'try', 'with', 'mainelse'])
+                kind = rng.choice(['if', 'try', 'with', 'mainelse', 'for', 'while', 'match', 'tryelse'])
                 if kind == 'if':
                     out += [pad + 'if True:'] + block(indent + 4, depth + 1)
                 elif kind == 'try':
                     out += [pad + 'try:'] + block(indent + 4, depth + 1) + [pad + 'except ImportError:', pad + '    pass']
                 elif kind == 'with':
                     out += [pad + 'with contextlib.suppress(Exception):'] + block(indent + 4, depth + 1)
+                elif kind == 'for':
+                    out += [pad + 'for _i%d in (1,):' % nid()] + block(indent + 4, depth + 1)
+                elif kind == 'while':
+                    out += [pad + 'while True:'] + block(indent + 4, depth + 1) + [pad + '    break']
+                elif kind == 'match':
+                    out += [pad + 'match 1:', pad + '    case 1:'] + block(indent + 8, depth + 1) + [pad + '    case _:', pad + '        pass']
+                elif kind == 'tryelse':
+                    out += [pad + 'try:', pad + '    pass', pad + 'except ImportError:', pad + '    pass', pad + 'else:'] + block(indent + 4, depth + 1) + [pad + 'finally:'] + block(indent + 4, depth + 1)
                 else:
                     out += [pad + "if __name__ == '__main__':", pad + '    def only_main%d():' % nid(), pad + '        """', pad + '        >>> print("main only")', pad + '        """', pad + 'else:'] + block(indent + 4, depth + 1)
         return out
